@@ -83,6 +83,7 @@ func checkC16(c *Check) {
 	c.Rule("R13", "the failure report states the stored status of the very error whose text it quotes: Status is the EnhancedCode of the value given as DiagnosticCode, unmodified (C18.R2)", 2)
 	importRules(c, "C18", checkC18, map[string]bool{"R2": true}, "R13")
 	c16CodePairChangedTogether(c, "R14")
+	c04FieldsWinOverDefaults(c, "R15")
 	c.Rule("R3c", "tryDelivery: the status kept for the report and the retry decision come from the same error: every path to the temporariness classification of an attempt's error has stored that error's conversion as the recipient's status (a status left over from an earlier attempt can have the other class)", 1)
 	c16StatusFromThisAttempt(c)
 
